@@ -55,15 +55,24 @@ func (q *MultiOpQueryer) Subscribe(req *requests.Request, closeCh <-chan struct{
 		conn.Close()
 	}()
 
+	// the subscriber closes resCh when it stops listening: a message that arrives
+	// after that has nowhere to go and ends the reader instead of the process
+	send := func(resp *requests.Response) (delivered bool) {
+		defer func() {
+			if recover() != nil {
+				delivered = false
+			}
+		}()
+		resCh <- resp
+		return true
+	}
+
 	go func() {
 		defer func() {
-			defer func() {
-				recover()
-			}()
 			conn.Close()
 			verifhook.At("qs.reader.beforeSendNil")
 			// indicate that it's done
-			resCh <- nil
+			send(nil)
 		}()
 
 		bInitMsg, err := json.Marshal(requests.ClientSubMsg{
@@ -111,8 +120,10 @@ func (q *MultiOpQueryer) Subscribe(req *requests.Request, closeCh <-chan struct{
 				if innerErr := json.Unmarshal(msg, &serverErrorResp); innerErr != nil {
 					return
 				}
-				resCh <- &requests.Response{
+				if !send(&requests.Response{
 					Errors: serverErrorResp.Payload,
+				}) {
+					return
 				}
 				continue
 			}
@@ -125,7 +136,9 @@ func (q *MultiOpQueryer) Subscribe(req *requests.Request, closeCh <-chan struct{
 				return
 			case requests.SubData:
 				verifhook.At("qs.reader.beforeSendData")
-				resCh <- serverResp.Payload
+				if !send(serverResp.Payload) {
+					return
+				}
 			}
 		}
 	}()
